@@ -74,15 +74,29 @@ func VerifC10_MaxInuse() {
 
 // VerifC10_Idle: with MaxIdleDuration a key read or written within the idle window is never reported idle (and so
 // never evicted for idleness by the scan), and a key untouched for longer than the window is evicted when the scan
-// visits it.
+// visits it - also when the key lives in an older storage table of the fragment and the newest table is empty.
 func VerifC10_Idle() {
 	window := vpRange("windowMs", 5, 50)
-	cl := vpNewCluster(vpClusterConfig{members: 1, replicaCount: 1, writeQuorum: 1, readQuorum: 1, partitions: 1,
+	// spill: the fragment's tables hold one entry each and a second key is written after "k" (and then possibly
+	// deleted again), so that "k" lives in an older table and the newest table may hold no live key
+	spill := vpChoose("spill", 3)
+	var tableSize uint64
+	if spill != 0 {
+		tableSize = 40
+	}
+	cl := vpNewCluster(vpClusterConfig{members: 1, replicaCount: 1, writeQuorum: 1, readQuorum: 1, partitions: 1, tableSize: tableSize,
 		dmaps: &config.DMaps{MaxIdleDuration: time.Duration(window) * time.Millisecond}})
 	cl.vpSetOwners(0, []int{0}, nil)
 	ctx := context.Background()
 	dm := vpDMap(cl.members[0], "d")
 	vpAssume(dm.Put(ctx, "k", []byte{1}, nil) == nil)
+	if spill != 0 {
+		vpAssume(dm.Put(ctx, "j", []byte{1}, nil) == nil)
+		if spill == 2 {
+			_, derr := dm.Delete(ctx, "j")
+			vpAssume(derr == nil)
+		}
+	}
 	vpSleepMs(vpRange("wait1", 0, 60))
 	touched := vpNowMs()
 	if vpBool("touchByGet") {
